@@ -530,6 +530,14 @@ def extract(prop_id, driver, extra_ml=(), prelude=()):
     exe = os.path.join(d, "drv-" + h)
     if os.path.exists(exe):
         return exe
+    # two simultaneous runs of the same check share this directory: one builds, the other waits and reuses
+    with locked("extract-" + os.path.basename(COQ) + "--" + prop_id):
+        return _extract_locked(prop_id, driver, extra_ml, prelude, ev, d, exe)
+
+
+def _extract_locked(prop_id, driver, extra_ml, prelude, ev, d, exe):
+    if os.path.exists(exe):
+        return exe
     shutil.rmtree(d, ignore_errors=True)
     os.makedirs(d)
     shutil.copy(ev, os.path.join(d, "Extract_%s.v" % prop_id))
